@@ -150,6 +150,17 @@ def run_history(ops):
     return steps, problems
 
 
+def eval_history(h):
+    """One edit history on the implementation + the property's oracle.  Returns (steps, failures)."""
+    steps, problems = run_history(h)
+    failures = []
+    if problems:
+        n, what = problems[0]
+        failures.append({"what": what, "kind": "incoherent" if "failed operation" not in what else "failed-op-changed",
+                         "history": h[:n + 1], "step": n, "all": [p[1] for p in problems][:5]})
+    return steps, failures
+
+
 def run(ctx):
     out = Outcome()
     out.rule = ("random edit histories (length 1-8) over 3 names, explicit/implicit/negative/gap indexes and every addressing form; "
@@ -168,7 +179,7 @@ def run(ctx):
     mo = ctx.driver.run(reqs)
     for h, m in zip(hists, mo):
         out.evaluations += 1
-        steps, problems = run_history(h)
+        steps, failures = eval_history(h)
         ok_ops = sum(1 for s in steps if s["exc"] is None)
         if ok_ops >= 2:
             out.nontrivial.add(repr(h))
@@ -183,13 +194,55 @@ def run(ctx):
         elif msteps != steps:
             k = next(i for i, (a, b) in enumerate(zip(msteps, steps)) if a != b)
             out.disagreements.append({"op": "rec.edit", "history": h[:k + 1], "model": msteps[k], "impl": steps[k]})
-        if problems:
-            n, what = problems[0]
-            out.failures.append({"what": what, "kind": "incoherent" if "failed operation" not in what else "failed-op-changed",
-                                 "history": h[:n + 1], "step": n, "all": [p[1] for p in problems][:5]})
+        out.failures += failures
         if len(out.samples) < 4 and ok_ops >= 3:
             out.sample({"history": h})
     return out
+
+
+def show_op(o):
+    def key(k):
+        t = k["t"]
+        return repr(k["v"]) if t in ("name", "int") else "MafColumnRecord(%r)" % k["key"] if t == "col" else "None" if t == "none" else "3.5"
+    if o["k"] == "del":
+        return "del rec[%s]" % key(o["key"])
+    col = "MafColumnRecord(%r, %r, column_index=%r)" % (o["col"]["key"], o["col"]["value"], o["col"]["index"])
+    return "rec.add(%s)" % col if o["k"] == "add" else "rec[%s] = %s" % (key(o["key"]), col)
+
+
+def show_obs(obs):
+    return "len %d, names %s, by index %s, by name %s" % (obs["len"], obs["keys"], [None if s is None else "%s@%s" % (s[0], s[2]) for s in obs["slots"]],
+                                                        ["%s@%s" % (d[0], d[2]) for d in obs["dict"]])
+
+
+def replay_case(ctx, failure):
+    """Re-run the stored edit history on the current implementation; the failures it produces now ([] = property holds)."""
+    h = failure.get("history")
+    if not isinstance(h, list) or not h or any(not isinstance(o, dict) or "k" not in o for o in h):
+        return None
+    steps, failures = eval_history(h)
+    msteps = None
+    if getattr(ctx, "driver_ok", True) and ctx.driver.available():
+        msteps = ctx.driver.run([{"op": "rec.edit", "ops": h}])[0]["steps"]
+    print("replay C15: a new MafRecord edited by %d operation(s)" % len(h))
+    for n, o in enumerate(h):
+        if n >= len(steps):
+            print("  %d. %s   (not executed: the history is cut at the first problem)" % (n, show_op(o)))
+            continue
+        st = steps[n]
+        print("  %d. %s" % (n, show_op(o)))
+        print("     implementation: %s; record now: %s" % ("raised " + st["exc"] if st["exc"] else "ok", show_obs(st["obs"])))
+        if msteps is not None and n < len(msteps):
+            m = msteps[n]
+            if has_unmodelled(m):
+                print("     model: outside its domain")
+            elif m == st:
+                print("     model: the same")
+            else:
+                print("     model: DIFFERS: %s; record now: %s" % ("raises " + m["exc"] if m.get("exc") else "ok", show_obs(m["obs"]) if isinstance(m.get("obs"), dict) else m.get("obs")))
+    for f in failures:
+        print("  oracle (after step %d): %s" % (f["step"], "; ".join(f["all"])))
+    return failures
 
 
 def shrink(ctx, f):
@@ -211,8 +264,10 @@ def shrink(ctx, f):
                 h = hh
                 changed = True
                 break
-    _s, p = run_history(h)
-    return dict(f, history=h, what=p[0][1] if p else f["what"], shrunk_from=len(f["history"]))
+    _s, again = eval_history(h)
+    if not again:
+        return f
+    return dict(f, shrunk_from=len(f["history"]), **again[0])
 
 
 def search(ctx):
